@@ -87,6 +87,49 @@ class BusProtocol (txdbus.protocol.BasicDBusProtocol):
         self.bus.messageReceived(self, msg)
 
 
+def _splitMatchRule(rule):
+    """
+    Splits a match rule into its (key, value) pairs following the quoting
+    rules of the DBus specification: text between apostrophes is literal
+    (commas and equals signs included), outside of them a backslash
+    followed by an apostrophe stands for an apostrophe and a comma ends
+    the value. A rule without constraints matches everything.
+    """
+    items = []
+    i = 0
+    n = len(rule)
+    while i < n:
+        if rule[i] == ',':
+            i += 1
+            continue
+        j = rule.index('=', i)
+        key = rule[i:j]
+        i = j + 1
+        value = []
+        quoted = False
+        while i < n:
+            c = rule[i]
+            if quoted:
+                if c == "'":
+                    quoted = False
+                else:
+                    value.append(c)
+            elif c == "'":
+                quoted = True
+            elif c == '\\' and rule[i + 1:i + 2] == "'":
+                value.append("'")
+                i += 1
+            elif c == ',':
+                break
+            else:
+                value.append(c)
+            i += 1
+        if quoted:
+            raise ValueError('Unterminated quote in match rule')
+        items.append((key, ''.join(value)))
+    return items
+
+
 class Bus (objects.DBusObject):
     """
     DBus Bus implementation.
@@ -488,12 +531,7 @@ class Bus (objects.DBusObject):
             'arg0namespace': None,
         }
 
-        for item in rule.split(','):
-            if not item:
-                continue  # a rule without constraints matches everything
-            k, v = item.split('=', 1)
-
-            value = v[1:-1]
+        for k, value in _splitMatchRule(rule):
 
             if k == 'type':
                 k = 'mtype'
